@@ -340,6 +340,18 @@ def _is_zeros_or_prev(v, loopvar):
     return False
 
 
+def _first_iteration_only(cfg, nid, loopvar):
+    """is node `nid` guarded by a test that pins the loop counter to 0 (`t > 0` false, `t == 0` true, ...)?"""
+    for test, label, _ in cfg.facts_at(nid):
+        if not isinstance(test, ast.expr):
+            continue
+        txt = ast.unparse(test).replace(" ", "")
+        if (txt in (f"{loopvar}>0", f"{loopvar}>=1", f"{loopvar}!=0", loopvar) and label == "false") or \
+                (txt in (f"{loopvar}==0", f"{loopvar}<1", f"not{loopvar}") and label == "true"):
+            return True
+    return False
+
+
 # --------------------------------------------------------------------- R-PATH
 def r_path(A, ctx, scope, rule="R-PATH"):
     ctx.rule(rule, "path discipline: in every `path` loop the penalty strength is set "
@@ -552,6 +564,12 @@ def r_path(A, ctx, scope, rule="R-PATH"):
                             if not isinstance(wa, ast.Assign):
                                 continue
                             if _is_zeros_or_prev(wa.value, tv):
+                                # a zero start matches the carried buffer only while that buffer is still the
+                                # zeros it was created as, i.e. at the first grid point
+                                is_zero_start = any(isinstance(x, ast.Call) and ast.unparse(x.func) in (
+                                    "np.zeros", "np.zeros_like") for x in ast.walk(wa.value))
+                                if is_zero_start and cfg.nodes[w_].loops and not _first_iteration_only(cfg, w_, tv):
+                                    okz = False
                                 continue
                             # reachable from this start definition to solve without redefining Xw?
                             seen_, work = {w_}, [w_]
